@@ -8,7 +8,7 @@ import threading
 
 VERIF = os.path.dirname(os.path.dirname(os.path.abspath(__file__)))
 REPO = os.environ.get("VERIF_REPO", "/repo")
-BIN = os.path.join(VERIF, "gen", "native")
+BIN = os.path.join(os.environ.get("VERIF_GEN", os.path.join(VERIF, "gen")), "native")
 _lock = threading.Lock()
 
 CXX = ["g++", "-std=c++17", "-O1", "-w", "-I", os.path.join(REPO, "src"), "-I", os.path.join(REPO, "_build", "include"),
